@@ -34,7 +34,7 @@ TRACE_TAGS = {"lost", "zeros", "chunk", "reset", "setGain", "wrapReject", "wrapC
               "multiFrame", "dtxFrame", "round10", "round5", "silkShort", "transCelt", "transSilk", "silkResetAfterCelt",
               "silkMultiFrame", "fecLbrr", "fecNoLbrr", "glue", "silkConceal", "midOnly", "sideReset", "rateSwitch", "monoToStereo",
               "redC2s", "redS2c", "redReplacesTransition", "c2sFirst", "s2cLast", "celtDecode", "celtResetDecode", "pitchPlc",
-              "noisePlc", "celtResetConceal", "fecHybridCeltConceals", "saturated", "silence", "skipCleared", "xfFull", "xfShort",
+              "noisePlc", "celtResetConceal", "fecHybridCeltConceals", "saturated", "silence", "silenceSkipped", "skipCleared", "xfFull", "xfShort",
               "c2sFadeUsed", "gain", "gainOnTransition", "gainSuppressed", "invalid", "argsReject"}
 
 TIERS = dict(
